@@ -115,6 +115,14 @@ def run_history(actions):
                 objs.append(comp)
             elif a['a'] == 'merge':
                 objs[a['i'] - 1].merge(composite=objs[a['j'] - 1], path=path)
+            elif a['a'] == 'both':
+                n = a['n']
+                objs[a['i'] - 1].merge(
+                    composite=objs[a['j'] - 1],
+                    processes={'q': {n: TagProc({'tag': 'LQ.' + n})}},
+                    topology={'q': {n: {'v': ('LQ.%s.topo' % n,)}}},
+                    state={'q': {'st': {n: 'LQ.%s.state' % n}}},
+                    path=path)
             else:
                 n = a['n']
                 objs[a['i'] - 1].merge(
@@ -153,17 +161,25 @@ def histories(tier, seed):
             for n in ('n1', 'n2'):
                 for p in ([], ['x']):
                     merges.append({'a': 'loose', 'i': i, 'n': n, 'path': p})
+        for i, j in ((1, 2), (2, 1)):
+            for p in ([], ['x']):
+                merges.append({'a': 'both', 'i': i, 'j': j, 'n': 'n1', 'path': p})
         pairs = list(itertools.product(merges, repeat=2))
         if tier == 'quick':
             rng.shuffle(pairs)
-            pairs = pairs[:12]
+            pairs = [pr for pr in pairs if pr[0]['a'] == 'both'][:6] + pairs[:10]
         for m1, m2 in pairs:
             out.append([g1, g2, m1, m2])
     if tier == 'thorough':
         for _ in range(1500):
             h = [rng.choice(gens) for _ in range(3)]
             for _ in range(rng.randint(2, 4)):
-                if rng.random() < 0.6:
+                r = rng.random()
+                if r < 0.2:
+                    i, j = rng.sample([1, 2, 3], 2)
+                    h.append({'a': 'both', 'i': i, 'j': j, 'n': 'n1',
+                              'path': rng.choice([[], ['x']])})
+                elif r < 0.6:
                     i, j = rng.sample([1, 2, 3], 2)
                     h.append({'a': 'merge', 'i': i, 'j': j, 'path': rng.choice(paths)})
                 else:
